@@ -499,30 +499,22 @@ class Duror(Filer):
         with self.env.begin(db=sdb, write=False, buffers=True) as txn:
             cursor = txn.cursor()  # create cursor to walk back
             if not cursor.set_range(iokey):  # max is past end of database
-                # Three possibilities for max past end of database
-                # 1. last entry in db is for same key
-                # 2. last entry in db is for other key before key
-                # 3. database is empty
-                if cursor.last():  # not 3. empty db, so either 1. or 2.
-                    ckey, cion = self.unsuffix(cursor.key(), sep=sep)
-                    if ckey == key:  # 1. last is last entry for same key
-                        ion = cion  # so set ion to cion
+                found = cursor.last()  # False when database is empty
             else:  # max is not past end of database
-                # Two possibilities for max not past end of databseso
-                # 1. cursor at max entry at key
-                # 2. other key after key with entry in database
                 ckey, cion = self.unsuffix(cursor.key(), sep=sep)
-                if ckey == key:  # 1. last entry for key is already at max
+                # either cursor at max entry at key or at entry of other key
+                # after key so backup one entry if any
+                found = True if ckey == key else cursor.prev()
+
+            # walk back over entries of other keys that sort inside the range
+            # of iokeys for key such as 'key.other' until last entry at key
+            miniokey = self.suffix(key, ion=0, sep=sep)
+            while found and bytes(cursor.key()) >= miniokey:
+                ckey, cion = self.unsuffix(cursor.key(), sep=sep)
+                if ckey == key:  # last entry at key
                     ion = cion
-                else:  # 2. other key after key so backup one entry
-                    # Two possibilities: 1. no prior entry 2. prior entry
-                    if cursor.prev():  # prev entry, maybe same or earlier pre
-                        # 2. prior entry with two possiblities:
-                        # 1. same key
-                        # 2. other key before key
-                        ckey, cion = self.unsuffix(cursor.key(), sep=sep)
-                        if ckey == key:  # prior (last) entry at key
-                            ion = cion  # so set ion to the cion
+                    break
+                found = cursor.prev()
 
             if ion is not None:
                 iokey = self.suffix(key, ion=ion, sep=sep)
